@@ -724,7 +724,25 @@ def _rule_retention_store(ctx: Ctx, r: BatcherRoles, rule: str) -> None:
     elif ok_kind:
         ctx.holds(rule, f'self.{r.ret} = {norm(v)}: a strong mapping of this batcher', where)
     else:
-        ctx.undecided(rule, f'self.{r.ret} = {norm(v) if v is not None else None}', where, 'unrecognised mapping type for the retention cache')
+        # a mapping class of the package: a dict subclass that changes how entries are stored / removed (a size cap that drops the
+        # oldest entry, tolerant deletes) decides on its own when a key stops being recognised - pending or not
+        cls_ = None
+        if isinstance(v, ast.Call) and isinstance(v.func, ast.Name):
+            cls_ = next((c for uu in r.p.units.values() for c in uu.classes() if c.name == v.func.id), None)
+        if cls_ is not None:
+            over = sorted(m.name for m in cls_.children if m.kind == 'function' and m.name in (
+                '__setitem__', '__delitem__', 'pop', 'popitem', 'setdefault', 'update', 'clear', '__getitem__', 'get', '__contains__', '__missing__'))
+            bases = [dotted(b) or '' for b in cls_.node.bases]
+            if over or not any(b.split('.')[-1] in ('dict', 'Dict', 'OrderedDict') for b in bases):
+                ctx.violation(rule, f'self.{r.ret} = {norm(v)}: {cls_.name}({", ".join(bases)}) overrides {over}', where,
+                              'the retention cache is a mapping with behaviour of its own (eviction by size, forgiving deletes ...): a key that is '
+                              'still pending or inside its window can stop being recognised - the next call adds it to a batch again, the first '
+                              'future is shadowed in the per-batch dict and its caller is never answered',
+                              construct=construct_key(r.init.qualname, 'retention cache with its own policy', cls_.name))
+            else:
+                ctx.holds(rule, f'self.{r.ret} = {norm(v)}: a dict subclass that overrides no mapping operation', where)
+        else:
+            ctx.undecided(rule, f'self.{r.ret} = {norm(v) if v is not None else None}', where, 'unrecognised mapping type for the retention cache')
 
 
 def _rule_dispatch(ctx: Ctx, r: BatcherRoles, rule: str) -> None:
@@ -1268,6 +1286,9 @@ def c11(ctx: Ctx) -> None:
     ctx.rule('C11-R4', 'no RET mutation is reachable on the hit path', 1)
     ctx.rule('C11-R5', 'the default key is str(arg), an explicit key is used unchanged', 1)
     ctx.rule('C11-R6', 'the retention cache is a strong dict owned by the batcher instance', 1)
+    ctx.rule('C11-R7', 'retention_timeout (like every option) is per-instance state: no class-level descriptor keeps the value on itself', 1)
+    from .common import rule_option_descriptors
+    rule_option_descriptors(ctx, 'C11-R7', r.cls, r.p)
     _rule_retention_store(ctx, r, 'C11-R6')
     RET = r.ret
     lookups, miss, hit, lkeys = table_lookups(g, lambda e: sattr(g, e) == RET)
